@@ -584,6 +584,7 @@ class _CUR(GreedySelector):
                 self._orthogonalize(last_selected=c)
 
         self.pi_ = self._compute_pi(self.X_current_)
+        self.pi_[self.selected_idx_[: self.n_selected_]] = 0.0
 
         super()._continue_greedy_search(X, y, n_to_select)
 
@@ -642,7 +643,8 @@ class _CUR(GreedySelector):
             if self.n_selected_ % self.recompute_every == 0:
                 self.pi_ = self._compute_pi(self.X_current_)
 
-        self.pi_[last_selected] = 0.0
+        # selections must never be made twice: mask all of them, not only the last
+        self.pi_[self.selected_idx_[: self.n_selected_]] = 0.0
 
     def _orthogonalize(self, last_selected):
         if self._axis == 1:
@@ -764,6 +766,7 @@ class _PCovCUR(GreedySelector):
                 self._orthogonalize(last_selected=c)
 
         self.pi_ = self._compute_pi(self.X_current_, self.y_current_)
+        self.pi_[self.selected_idx_[: self.n_selected_]] = 0.0
 
         super()._continue_greedy_search(X, y, n_to_select)
 
@@ -781,7 +784,8 @@ class _PCovCUR(GreedySelector):
             if self.n_selected_ % self.recompute_every == 0:
                 self.pi_ = self._compute_pi(self.X_current_, self.y_current_)
 
-        self.pi_[last_selected] = 0.0
+        # selections must never be made twice: mask all of them, not only the last
+        self.pi_[self.selected_idx_[: self.n_selected_]] = 0.0
 
     def _compute_pi(self, X, y=None):
         r"""For feature selection, the importance score :math:`\pi` is the sum over
